@@ -15,6 +15,8 @@ def parseLayerOrBase (s : String) : Option (Sum Layer Base) :=
   | "mut" => some (.inl .wr)
   | "nsigner" => some (.inl .nsigner)
   | "nmut" => some (.inl .nmut)
+  | "advw" => some (.inl .advw)
+  | "advs" => some (.inl .advs)
   | "info" => some (.inr .info)
   | "sysacct" => some (.inr .sysacct)
   | _ =>
